@@ -73,9 +73,13 @@ _parser = Parser(GRAMMAR_PEP_508_MARKERS, "lalr")
 
 
 def _quoted(value: str) -> str:
-    # a marker string has no escapes: a value containing a double quote
-    # can only be written in single quotes
-    return f"'{value}'" if '"' in value else f'"{value}"'
+    # The value is written between the quotes it can stand between unchanged:
+    # single quotes if it holds a double quote or a backslash (only a double-quoted
+    # string gives a backslash a meaning), double quotes otherwise. A value holding
+    # a single quote was read from a double-quoted string and is written back as one.
+    if "'" not in value and ('"' in value or "\\" in value):
+        return f"'{value}'"
+    return f'"{value}"'
 
 
 class BaseMarker(ABC):
